@@ -391,7 +391,8 @@ class Polygon(Shape2D):
 
         inertia_tensor = np.diag([0, 0, self.polar_moment_inertia])
         shifted_inertia_tensor = translate_inertia_tensor(
-            original_center, rotate_order2_tensor(mat, inertia_tensor), self.area
+            # mat maps the normal onto z, so its transpose takes the tensor back.
+            original_center, rotate_order2_tensor(mat.T, inertia_tensor), self.area
         )
 
         self.center = original_center
